@@ -14,7 +14,7 @@ import numpy as np
 from ..result import Result
 from .. import refmodel as ref
 from .. import kasm
-from ..seams import Oracle, NumpyProxy, patched, explore
+from ..seams import Oracle, NumpyProxy, patched, unpatched, explore
 
 META = {
     "level": "model_checking",
@@ -332,7 +332,8 @@ def job_swap(job):
     real_acc = tempering.chain_swap_acceptance
 
     def acc(*a):
-        v = real_acc(*a)
+        with unpatched():
+            v = real_acc(*a)
         captured["a"] = float(v)
         return v
 
@@ -470,8 +471,8 @@ def job_orch(job):
     temps = np.array([[1.0], [0.5, 1.0], [0.25, 0.5, 1.0]][n_temps - 1])
     ploidy, n_base = 2, 3
     g_init = np.array([[0, 0, 0], [1, 1, 1]], np.int8)
-    reads = np.array([[[0.9, 0.1], [0.2, 0.8], [0.5, 0.5]]])
-    n_alleles = np.array([2, 2, 2], np.int8)
+    reads = np.array([[[0.9, 0.1, 0.0], [0.2, 0.7, 0.1], [0.5, 0.5, 0.0]]])
+    n_alleles = np.array([2, 3, 2], np.int8)  # mixed allele counts: prod != max ** n
     from mchap.assemble.likelihood import log_likelihood
 
     rc_token = np.array([2])
